@@ -126,12 +126,13 @@ MANIFEST_TEXT = {
     "C03": _mt(_E1, _PBT + "the model's permitted-loss rule (peek scan of all live keys after every call)", "bounded exploration; every loss of a live key must be one the statement permits", _NOTE_MODEL, "DESIGN.md 5/C03"),
     "C04": _mt(_E1, _PBT + "the model's deadlines on a harness-owned clock (exact-deadline and +-1 ns probes)", "bounded exploration with constructed boundary instants", _NOTE_MODEL, "DESIGN.md 5/C04"),
     "C05": _mt(_E1, _PBT + "the model's deadlines on a harness-owned clock (deadline-1 ns probes, deadline-moving writes)", "bounded exploration with constructed boundary instants", _NOTE_MODEL, "DESIGN.md 5/C05"),
-    "C06": _mt("E3 sched", "property-based testing of generated thread programs under harness-owned schedules (generated + depth-first enumerated at lock granularity); oracle = linearizability search by sequential re-execution of the same code",
+    "C06": _mt("E3 sched", "property-based testing of generated thread programs under harness-owned schedules (generated + depth-first enumerated; schedule points: invocation, lock acquisition, and every value copy inside the critical sections); oracle = linearizability search by sequential re-execution of the same code",
                "bounded exploration: 2-3 threads x 1-3 operations, lock-granularity schedules exhaustive for the small programs counted in the evidence, sampled otherwise",
                "trusted: the scheduler and the linearization search in src/sched.cpp; the sequential behaviour itself is pinned by C01-C20; hooks ON only in this engine (lock.hpp, CAPPUCCINO_VERIF_HOOKS)", "DESIGN.md 6.1"),
-    "C07": _mt("E4 race", "dynamic race detection (ThreadSanitizer happens-before) over the completely enumerated public method-pair matrix with generated arguments and prefixes, plus generated multi-thread programs",
-               "bounded exploration: the pair matrix is complete, argument space and schedules are sampled; a report is a data race in the C++ memory model on the executed path",
-               "trusted: ThreadSanitizer (clang 14), uninstrumented libstdc++.so is invisible; hooks off (production headers)", "DESIGN.md 6.2"),
+    "C07": _mt("E4 race + E3 sched (TSan build)", "dynamic race detection (ThreadSanitizer happens-before) over the completely enumerated public method-pair matrix with generated arguments and prefixes, generated multi-thread programs on free threads, "
+               "and generated thread programs under harness-chosen schedules (baton scheduler hidden from TSan by annotations)",
+               "bounded exploration: the pair matrix is complete, argument space and schedules are sampled / enumerated up to a cap; a report is a data race in the C++ memory model on the executed path",
+               "trusted: ThreadSanitizer (clang 14) and its annotation interface, uninstrumented libstdc++.so is invisible; the matrix runs the production headers (hooks off), the scheduled phase runs with the lock.hpp hooks on", "DESIGN.md 6.2, 0"),
     "C08": _mt("E1 seq + E2 fuzz", "fuzzing (libFuzzer, structure-aware byte decoder) and property-based testing (rapidcheck) with ASan + UBSan + libstdc++ debug-mode iterators + an instrumented value type as the monitor",
                "bounded exploration: sanitizers see only the executions run; all ten containers x both thread_safe modes x Tracked and std::string values", "trusted: sanitizer runtimes, libstdc++ debug mode, src/values.hpp Tracked accounting; no MSan", "DESIGN.md 5/C08"),
     "C09": _mt(_E1, _PBT + "the model's allow-mode table; insert_range decided by enumerating every outcome the single inserts permit", "bounded exploration over key histories x allow modes", _NOTE_MODEL, "DESIGN.md 5/C09"),
@@ -140,7 +141,8 @@ MANIFEST_TEXT = {
     "C12": _mt(_E1, _PBT + "the model's insertion stamps (victim must be the earliest inserted)", "bounded exploration on fifo incl. iterator-pair overloads", _NOTE_MODEL, "DESIGN.md 5/C12"),
     "C13": _mt(_E1, _PBT + "the model's recency stamps (victim must be the most recently used)", "bounded exploration on mru", _NOTE_MODEL, "DESIGN.md 5/C13"),
     "C14": _mt(_E1, _PBT + "the model's aging rule on a harness-owned clock (idle boundary and +-1 ns)", "bounded exploration on lfuda with dyadic ratios", _NOTE_MODEL, "DESIGN.md 5/C14"),
-    "C15": _mt(_E1, _PBT + "the model (one prior resident per eviction) plus a victim-rank histogram over 400*capacity evictions per generated seed", "bounded exploration; spread tested, uniformity only reported", _NOTE_MODEL, "DESIGN.md 5/C15"),
+    "C15": _mt(_E1 + " (+ sanitizer-free build for the mass runs)", _PBT + "the model (one prior resident per eviction), a victim-rank histogram over 400*capacity evictions per generated seed, and a mass-survival test at capacity 300-70000 (140000) with three key tables",
+               "bounded exploration; spread tested, uniformity only reported", _NOTE_MODEL, "DESIGN.md 5/C15, 12.2b"),
     "C16": _mt(_E1, _PBT + "the model: no live key lost while an expired entry is resident", "bounded exploration of full caches with live/expired mixes, update_ttl shorter/longer", _NOTE_MODEL, "DESIGN.md 5/C16"),
     "C17": _mt(_E1, _PBT + "the model: return value = size drop = resident expired entries; no live loss", "bounded exploration incl. deadline order != write order", _NOTE_MODEL, "DESIGN.md 5/C17"),
     "C18": _mt(_E1, "differential property-based testing: range call on instance A vs element-wise single calls on twin instance B at a frozen clock, all later results compared",
